@@ -62,6 +62,15 @@ type HistViolation struct {
 
 const day0 = 1699920000 // 2023-11-14T00:00:00Z
 
+// streams of a Loki JSON body that do not parse (SeriesIndex.tla: tail "bad_after" / "bad_before")
+var malformedStreams = []string{
+	`{"stream":{"series":"malformed"},"values":[["not-a-number","x"]]}`,
+	`{"stream":{"series":"malformed"},"values":[["1700000000000000000","x"]`,
+	`{"stream":{"series":"malformed"},"values":"oops"}`,
+	`{"stream":{"series":"malformed"},"values":[[1700000000000000000,"x"]]}`,
+	`{"stream":"oops","values":[["1700000000000000000","x"]]}`,
+}
+
 func resetCache() {
 	c, ok := plugin.GoCache.(*numbercache.Cache[uint64])
 	if !ok {
@@ -107,6 +116,7 @@ func history(in, out string) int {
 	var viols []HistViolation
 	var infra []string
 	pushes, resets, queries := 0, 0, 0
+	tails := map[string]int{}
 	for bi, beh := range input.Behaviours {
 		var outcome struct{ s, p bool }
 		w, err := e2e.New(e2e.Options{IntervalMs: 1, Attempts: 1, OnDo: func(b *fakech.Block) error {
@@ -131,7 +141,22 @@ func history(in, out string) int {
 				fp, t := toInt(st.Args[0]), toInt(st.Args[1])
 				outcome.s, outcome.p = st.Args[2].(bool), st.Args[3].(bool)
 				ns := (int64(day0) + int64(t)*3600) * 1e9
-				body := fmt.Sprintf(`{"streams":[{"stream":{"series":"fp%d"},"values":[["%d","sample fp%d t%d"]]}]}`, fp, ns+int64(si), fp, t)
+				good := fmt.Sprintf(`{"stream":{"series":"fp%d"},"values":[["%d","sample fp%d t%d"]]}`, fp, ns+int64(si), fp, t)
+				tail := "none"
+				if len(st.Args) > 4 {
+					tail = st.Args[4].(string)
+				}
+				body := `{"streams":[` + good + `]}`
+				if tail != "none" {
+					// the spec's stream that does not parse: one of several ways a stream of a Loki body can be malformed
+					badStream := malformedStreams[(bi+si)%len(malformedStreams)]
+					if tail == "bad_after" {
+						body = `{"streams":[` + good + `,` + badStream + `]}`
+					} else {
+						body = `{"streams":[` + badStream + `,` + good + `]}`
+					}
+					tails[tail]++
+				}
 				code, _ := w.Push("POST", "/loki/api/v1/push", "application/json", []byte(body), nil)
 				pushes++
 				class := "err"
@@ -147,6 +172,7 @@ func history(in, out string) int {
 				resets++
 			}
 		}
+		rowsDiffer := false
 		if !failed {
 			last := beh[len(beh)-1].State
 			// stored series rows: (stored day, fp)
@@ -165,7 +191,9 @@ func history(in, out string) int {
 				}
 				if !reflect.DeepEqual(got, want) {
 					bad("conformance", "history|series-rows", fmt.Sprintf("stored series rows (day/fp) %v, the model says %v", keys(got), keys(want)), len(beh)-1)
-					failed = true
+					// every status conformed, so the model's acked set is the real one: the property itself is still judged below,
+					// by the real read path alone
+					rowsDiffer = true
 				}
 			}
 			// discoverability of every acknowledged sample through the real read path
@@ -193,7 +221,10 @@ func history(in, out string) int {
 							modelSays = true
 						}
 					}
-					if found != modelSays {
+					if rowsDiffer && found {
+						continue
+					}
+					if !rowsDiffer && found != modelSays {
 						bad("conformance", "history|discoverable", fmt.Sprintf("acknowledged sample fp%d t=%dh: read path finds it=%v, the model says %v (%d %.200s)", fp, t, found, modelSays, code, resp), len(beh)-1)
 						break
 					}
@@ -210,6 +241,10 @@ func history(in, out string) int {
 								cause = "series-row-stored-under-another-day"
 							}
 						}
+						if rowsDiffer {
+							// the stored rows are not the model's, so the model cannot name the deviation
+							cause = "no-series-row-under-a-searched-day"
+						}
 						bad("property", "undiscoverable|"+cause, fmt.Sprintf("sample fp%d at t=%dh was acknowledged (2xx) but a query for its labels over [t, t+1s) does not return it: %s", fp, t, cause), len(beh)-1)
 						break
 					}
@@ -224,6 +259,7 @@ func history(in, out string) int {
 	res["behaviours"] = len(input.Behaviours)
 	res["pushes"] = pushes
 	res["cache_resets"] = resets
+	res["unparsable_tails"] = tails
 	res["read_queries"] = queries
 	res["violations"] = viols
 	res["infra"] = infra
@@ -309,9 +345,29 @@ func jstr(s string) string {
 	return b.String()
 }
 
-type protoFn func(pairs [][2]string) (body []byte, parser unmarshal.ParsingFunction, ok bool)
+type protoFn func(pairs [][2]string, sh shape) (body []byte, parser unmarshal.ParsingFunction, ok bool)
 
-func lokiStream(pairs [][2]string) ([]byte, unmarshal.ParsingFunction, bool) {
+// shape of the request around the series under test (Labels.tla: the fingerprint does not depend on the request): how many
+// samples the series carries and how many single-sample filler series stand in front of / behind it in the same body.
+// The samples of the series under test carry the value targetValue / the line "target", fillers carry 1 / "filler".
+type shape struct {
+	Name                   string
+	Samples, Before, After int
+}
+
+const targetValue = 7.25
+
+var shapes = []shape{
+	{"single", 1, 0, 0},
+	{"long", 1500, 0, 0},   // one series far larger than any per-request / per-series chunk of a decoder
+	{"long2", 2600, 0, 0},  // ... crossing more than one chunk boundary
+	{"late", 4, 998, 0},    // a small series behind many others: a request-wide counter crosses a round number inside it
+	{"late2", 3, 999, 3},   // ... exactly at its first sample
+	{"mid", 700, 650, 650}, // a medium series in the middle of a large request
+	{"mid2", 120, 95, 40},  // the same around 100 / 200
+}
+
+func lokiStream(pairs [][2]string, sh shape) ([]byte, unmarshal.ParsingFunction, bool) {
 	var lp []string
 	for _, p := range pairs {
 		if !utf8.ValidString(p[0]) || !utf8.ValidString(p[1]) {
@@ -319,12 +375,31 @@ func lokiStream(pairs [][2]string) ([]byte, unmarshal.ParsingFunction, bool) {
 		}
 		lp = append(lp, jstr(p[0])+":"+jstr(p[1]))
 	}
-	return []byte(`{"streams":[{"stream":{` + strings.Join(lp, ",") + `},"values":[["1700000000000000000","x"]]}]}`), unmarshal.DecodePushRequestStringV2, true
+	if sh.Name == "single" {
+		return []byte(`{"streams":[{"stream":{` + strings.Join(lp, ",") + `},"values":[["1700000000000000000","x"]]}]}`), unmarshal.DecodePushRequestStringV2, true
+	}
+	var streams []string
+	filler := func(n, base int) {
+		for i := 0; i < n; i++ {
+			streams = append(streams, fmt.Sprintf(`{"stream":{"filler_series":"f%d"},"values":[["1700000000000000000","filler"]]}`, base+i))
+		}
+	}
+	filler(sh.Before, 0)
+	var vals []string
+	for i := 0; i < sh.Samples; i++ {
+		vals = append(vals, fmt.Sprintf(`["%d","target"]`, 1700000000000000000+int64(i)))
+	}
+	streams = append(streams, `{"stream":{`+strings.Join(lp, ",")+`},"values":[`+strings.Join(vals, ",")+`]}`)
+	filler(sh.After, sh.Before)
+	return []byte(`{"streams":[` + strings.Join(streams, ",") + `]}`), unmarshal.DecodePushRequestStringV2, true
 }
 
 var identRe = regexp.MustCompile(`^[a-zA-Z_][a-zA-Z0-9_]*$`)
 
-func lokiLabelsString(pairs [][2]string) ([]byte, unmarshal.ParsingFunction, bool) {
+func lokiLabelsString(pairs [][2]string, sh shape) ([]byte, unmarshal.ParsingFunction, bool) {
+	if sh.Name != "single" {
+		return nil, nil, false
+	}
 	var lp []string
 	for _, p := range pairs {
 		if !identRe.MatchString(p[0]) || !utf8.ValidString(p[1]) || strings.ContainsAny(p[1], "\x00\n") {
@@ -336,7 +411,10 @@ func lokiLabelsString(pairs [][2]string) ([]byte, unmarshal.ParsingFunction, boo
 	return []byte(`{"streams":[{"labels":` + jstr(lbl) + `,"entries":[{"ts":"1700000000000000000","line":"x"}]}]}`), unmarshal.DecodePushRequestStringV2, true
 }
 
-func lokiProtoB(pairs [][2]string) ([]byte, unmarshal.ParsingFunction, bool) {
+func lokiProtoB(pairs [][2]string, sh shape) ([]byte, unmarshal.ParsingFunction, bool) {
+	if sh.Name != "single" {
+		return nil, nil, false
+	}
 	var lp []string
 	for _, p := range pairs {
 		if !identRe.MatchString(p[0]) || !utf8.ValidString(p[1]) || strings.ContainsAny(p[1], "\x00\n") {
@@ -350,15 +428,31 @@ func lokiProtoB(pairs [][2]string) ([]byte, unmarshal.ParsingFunction, bool) {
 	return b, unmarshal.UnmarshalProtoV2, true
 }
 
-func promB(pairs [][2]string) ([]byte, unmarshal.ParsingFunction, bool) {
+func promB(pairs [][2]string, sh shape) ([]byte, unmarshal.ParsingFunction, bool) {
 	ts := &prompb.TimeSeries{Samples: []*prompb.Sample{{Value: 1, Timestamp: 1700000000000}}}
+	if sh.Name != "single" {
+		ts.Samples = nil
+		for i := 0; i < sh.Samples; i++ {
+			ts.Samples = append(ts.Samples, &prompb.Sample{Value: targetValue, Timestamp: 1700000000000 + int64(i)})
+		}
+	}
 	for _, p := range pairs {
 		if !utf8.ValidString(p[0]) || !utf8.ValidString(p[1]) {
 			return nil, nil, false // protobuf string fields must be UTF-8
 		}
 		ts.Labels = append(ts.Labels, &prompb.Label{Name: p[0], Value: p[1]})
 	}
-	b, err := proto.Marshal(&prompb.WriteRequest{Timeseries: []*prompb.TimeSeries{ts}})
+	var all []*prompb.TimeSeries
+	filler := func(n, base int) {
+		for i := 0; i < n; i++ {
+			all = append(all, &prompb.TimeSeries{Labels: []*prompb.Label{{Name: "filler_series", Value: fmt.Sprintf("f%d", base+i)}},
+				Samples: []*prompb.Sample{{Value: 1, Timestamp: 1700000000000}}})
+		}
+	}
+	filler(sh.Before, 0)
+	all = append(all, ts)
+	filler(sh.After, sh.Before)
+	b, err := proto.Marshal(&prompb.WriteRequest{Timeseries: all})
 	if err != nil {
 		return nil, nil, false
 	}
@@ -372,6 +466,7 @@ type LabelEvent struct {
 	Set   string `json:"set"`
 	Proto string `json:"proto"`
 	Perm  int    `json:"perm"`
+	Shape string `json:"shape"`
 	Fp    string `json:"fp"`
 	DocOK bool   `json:"docok"`
 }
@@ -382,6 +477,14 @@ type LabelViolation struct {
 	Pairs     [][2]string `json:"pairs"`
 	Proto     string      `json:"proto"`
 	Doc       string      `json:"doc"`
+}
+
+// signatures name the class of the request shape (one series alone / a request larger than one decoder chunk), not the sizes
+func shapeSig(sh shape) string {
+	if sh.Name == "single" {
+		return ""
+	}
+	return "|large-request"
 }
 
 func charClass(s string) string {
@@ -449,6 +552,7 @@ func labelsMode(out, tracePath string, seed int64, nsets int) int {
 		}
 	}
 	runs := 0
+	shapeRuns := map[string]int{}
 	chdb := chsql.NewDB()
 	chdb.CreateTable("t", []chsql.Column{{Name: "labels", Type: "String"}})
 	for _, ps := range sets {
@@ -471,78 +575,131 @@ func labelsMode(out, tracePath string, seed int64, nsets int) int {
 		}
 		for pname, pf := range protos {
 			for pi, perm := range perms {
-				body, parser, ok := pf(perm)
-				if !ok {
-					continue
-				}
-				ctx := context.Background()
-				ch := parser(ctx, bytes.NewReader(body), &recCache{m: map[uint64]bool{}})
-				var ts *model.TimeSeriesData
-				var perr error
-				for r := range ch {
-					if r.Error != nil {
-						perr = r.Error
+				for _, sh := range shapes {
+					if sh.Name != "single" && pi != 0 {
+						continue // the order of the pairs and the shape of the request are varied independently
+					}
+					body, parser, ok := pf(perm, sh)
+					if !ok {
 						continue
 					}
-					if t, ok := r.TimeSeriesRequest.(*model.TimeSeriesData); ok && len(t.MLabels) > 0 {
-						ts = t
+					ctx := context.Background()
+					ch := parser(ctx, bytes.NewReader(body), &recCache{m: map[uint64]bool{}})
+					type row struct {
+						fp  uint64
+						doc string
 					}
-				}
-				runs++
-				if perr != nil || ts == nil {
-					add(LabelViolation{Signature: "labels|rejected|" + pname, Msg: fmt.Sprintf("well-formed body with labels %q rejected: %v", perm, perr), Pairs: perm, Proto: pname})
-					continue
-				}
-				fp, doc := ts.MFingerprint[0], ts.MLabels[0]
-				docOK := true
-				var m map[string]string
-				if err := json.Unmarshal([]byte(doc), &m); err != nil {
-					docOK = false
-					cl := "other"
-					for _, p := range perm {
-						if c := charClass(p[1]); c != "other" {
-							cl = c
+					var rows []row                 // series rows emitted for the request
+					targetFps := map[uint64]int{}  // fingerprints of the sample rows of the series under test
+					fillerFps := map[uint64]bool{} // fingerprints of the other sample rows
+					var perr error
+					for r := range ch {
+						if r.Error != nil {
+							perr = r.Error
+							continue
 						}
-						if c := charClass(p[0]); c != "other" {
-							cl = c
+						if t, ok := r.TimeSeriesRequest.(*model.TimeSeriesData); ok {
+							for i := range t.MLabels {
+								rows = append(rows, row{t.MFingerprint[i], t.MLabels[i]})
+							}
 						}
-					}
-					add(LabelViolation{Signature: "labels|doc-not-json|" + cl, Msg: fmt.Sprintf("stored label document is not valid JSON (%v): %s", err, doc), Pairs: perm, Proto: pname, Doc: doc})
-				} else if !reflect.DeepEqual(m, want) {
-					docOK = false
-					cl := "other"
-					for _, p := range perm {
-						if c := charClass(p[1]); c != "other" {
-							cl = c
+						if sp, ok := r.SamplesRequest.(*model.TimeSamplesData); ok {
+							for i := range sp.MFingerprint {
+								if sh.Name == "single" || sp.MValue[i] == targetValue || sp.MMessage[i] == "target" {
+									targetFps[sp.MFingerprint[i]]++
+								} else {
+									fillerFps[sp.MFingerprint[i]] = true
+								}
+							}
 						}
 					}
-					add(LabelViolation{Signature: "labels|doc-differs|" + cl, Msg: fmt.Sprintf("label document decodes to %q, the sanitised label set is %q", m, want), Pairs: perm, Proto: pname, Doc: doc})
-				} else {
-					// what ClickHouse's JSONExtractKeysAndValues (the label index MV) sees
-					chdb.Truncate("t")
-					chdb.Insert("t", []any{doc})
-					r, err := chdb.Query("SELECT JSONExtractKeysAndValues(labels, 'String') FROM t")
-					if err == nil {
-						got := map[string]string{}
-						for _, kv := range r.Rows[0][0].([]any) {
-							t := kv.(chsql.Tuple)
-							got[t[0].(string)] = t[1].(string)
+					runs++
+					shapeRuns[sh.Name]++
+					var trows []row
+					for _, r := range rows {
+						if !fillerFps[r.fp] {
+							trows = append(trows, r)
 						}
-						if !reflect.DeepEqual(got, want) {
+					}
+					if perr != nil || len(trows) == 0 {
+						add(LabelViolation{Signature: "labels|rejected|" + pname + shapeSig(sh), Msg: fmt.Sprintf("well-formed body (request shape %+v) with labels %q rejected or without series row: %v", sh, perm, perr), Pairs: perm, Proto: pname})
+						continue
+					}
+					nt := 0
+					for _, n := range targetFps {
+						nt += n
+					}
+					if nt != sh.Samples {
+						add(LabelViolation{Signature: "labels|samples-lost|" + pname + shapeSig(sh), Msg: fmt.Sprintf("request shape %+v, labels %q: %d sample rows of the series emitted, %d sent", sh, perm, nt, sh.Samples), Pairs: perm, Proto: pname})
+					}
+					for _, tr := range trows {
+						fp, doc := tr.fp, tr.doc
+						docOK := true
+						var m map[string]string
+						if err := json.Unmarshal([]byte(doc), &m); err != nil {
 							docOK = false
-							add(LabelViolation{Signature: "labels|index-differs", Msg: fmt.Sprintf("JSONExtractKeysAndValues of the label document gives %q, the label set is %q", got, want), Pairs: perm, Proto: pname, Doc: doc})
+							cl := "other"
+							for _, p := range perm {
+								if c := charClass(p[1]); c != "other" {
+									cl = c
+								}
+								if c := charClass(p[0]); c != "other" {
+									cl = c
+								}
+							}
+							add(LabelViolation{Signature: "labels|doc-not-json|" + cl + shapeSig(sh), Msg: fmt.Sprintf("stored label document is not valid JSON (%v): %s", err, doc), Pairs: perm, Proto: pname, Doc: doc})
+						} else if !reflect.DeepEqual(m, want) {
+							docOK = false
+							cl := "other"
+							for _, p := range perm {
+								if c := charClass(p[1]); c != "other" {
+									cl = c
+								}
+							}
+							add(LabelViolation{Signature: "labels|doc-differs|" + cl + shapeSig(sh), Msg: fmt.Sprintf("request shape %+v: label document decodes to %q, the sanitised label set is %q", sh, m, want), Pairs: perm, Proto: pname, Doc: doc})
+						} else {
+							// what ClickHouse's JSONExtractKeysAndValues (the label index MV) sees
+							chdb.Truncate("t")
+							chdb.Insert("t", []any{doc})
+							r, err := chdb.Query("SELECT JSONExtractKeysAndValues(labels, 'String') FROM t")
+							if err == nil {
+								got := map[string]string{}
+								for _, kv := range r.Rows[0][0].([]any) {
+									t := kv.(chsql.Tuple)
+									got[t[0].(string)] = t[1].(string)
+								}
+								if !reflect.DeepEqual(got, want) {
+									docOK = false
+									add(LabelViolation{Signature: "labels|index-differs", Msg: fmt.Sprintf("JSONExtractKeysAndValues of the label document gives %q, the label set is %q", got, want), Pairs: perm, Proto: pname, Doc: doc})
+								}
+							}
+						}
+						events = append(events, LabelEvent{Ev: "Push", Set: id, Proto: pname, Perm: pi, Shape: sh.Name, Fp: fmt.Sprint(fp), DocOK: docOK})
+						if old, ok := fpOfSet[id]; ok && old != fp {
+							add(LabelViolation{Signature: "fingerprint|not-a-function-of-the-set" + shapeSig(sh), Msg: fmt.Sprintf("label set %s got fingerprints %d and %d (order / protocol / request-shape dependent; request shape %+v)", id, old, fp, sh), Pairs: perm, Proto: pname})
+						}
+						fpOfSet[id] = fp
+						if o, ok := setOfFp[fp]; ok && o != id {
+							add(LabelViolation{Signature: "fingerprint|collision", Msg: fmt.Sprintf("different label sets share fingerprint %d: %s / %s", fp, o, id), Pairs: perm, Proto: pname})
+						}
+						setOfFp[fp] = id
+					}
+					// every sample row of the series: stored under the fingerprint of the set, and that fingerprint has a series row
+					var tf []uint64
+					for f := range targetFps {
+						tf = append(tf, f)
+					}
+					sort.Slice(tf, func(a, b int) bool { return tf[a] < tf[b] })
+					for _, f := range tf {
+						events = append(events, LabelEvent{Ev: "Sample", Set: id, Proto: pname, Perm: pi, Shape: sh.Name, Fp: fmt.Sprint(f), DocOK: true})
+						if old, ok := fpOfSet[id]; ok && old != f {
+							add(LabelViolation{Signature: "fingerprint|not-a-function-of-the-set" + shapeSig(sh), Msg: fmt.Sprintf("label set %s: %d sample rows stored under fingerprint %d, the set's fingerprint is %d (request shape %+v)", id, targetFps[f], f, old, sh), Pairs: perm, Proto: pname})
+						}
+						if _, ok := setOfFp[f]; !ok {
+							add(LabelViolation{Signature: "labels|sample-without-series-row" + shapeSig(sh), Msg: fmt.Sprintf("label set %s: %d sample rows stored under fingerprint %d for which no series row was emitted (request shape %+v)", id, targetFps[f], f, sh), Pairs: perm, Proto: pname})
 						}
 					}
 				}
-				events = append(events, LabelEvent{Ev: "Push", Set: id, Proto: pname, Perm: pi, Fp: fmt.Sprint(fp), DocOK: docOK})
-				if old, ok := fpOfSet[id]; ok && old != fp {
-					add(LabelViolation{Signature: "fingerprint|not-a-function-of-the-set", Msg: fmt.Sprintf("label set %s got fingerprints %d and %d (order / protocol dependent)", id, old, fp), Pairs: perm, Proto: pname})
-				}
-				fpOfSet[id] = fp
-				if o, ok := setOfFp[fp]; ok && o != id {
-					add(LabelViolation{Signature: "fingerprint|collision", Msg: fmt.Sprintf("different label sets share fingerprint %d: %s / %s", fp, o, id), Pairs: perm, Proto: pname})
-				}
-				setOfFp[fp] = id
 			}
 		}
 	}
@@ -554,7 +711,7 @@ func labelsMode(out, tracePath string, seed int64, nsets int) int {
 		}
 		f.Close()
 	}
-	res := map[string]any{"label_sets": len(sets), "parser_runs": runs, "distinct_fingerprints": len(setOfFp), "violations": viols, "events": len(events)}
+	res := map[string]any{"label_sets": len(sets), "parser_runs": runs, "distinct_fingerprints": len(setOfFp), "shape_runs": shapeRuns, "violations": viols, "events": len(events)}
 	b, _ := json.MarshalIndent(res, "", " ")
 	os.WriteFile(out, b, 0644)
 	return 0
